@@ -4,10 +4,11 @@ import BpProofs.RtTime
 import BpProofs.RtWrap
 import BpProofs.RtMap
 import BpProofs.RtTimes
+import BpProofs.RtWraps
 /-
   C01, the main induction: the round trip for every well-typed message value (`MsgOk`) —
   flat fields, nested / recursive messages, repeated messages, Timestamp / Duration (singular
-  and repeated), wrappers, maps (scalar, message, Timestamp / Duration values) — by strong induction on the nesting fuel of the decoder.
+  and repeated), wrappers (singular and repeated), maps (scalar, message, Timestamp / Duration values) — by strong induction on the nesting fuel of the decoder.
 -/
 namespace Bp
 open Gen
@@ -34,6 +35,17 @@ theorem valEqv_wrapNorm (S : Schema) (w : PType) (v : Val) (hv : scalarOk w v = 
         simp [wrapNorm, scalarIsDefault, scalarDef, eqDefault, defaultOfKind, f64IsZero]
       rw [this]; exact ValEqv.negZero64
     | _ => simp [wrapStable] at hs
+
+/-- a list of wrapped scalars and the list of their normal forms (what a repeated wrapper field
+    decodes to) -/
+theorem listEqv_wrapNorm (S : Schema) (w : PType) : ∀ xs : List Val, (∀ x ∈ xs, scalarOk w x = true) →
+    ListEqv S xs (xs.map (wrapNorm S w)) := by
+  intro xs
+  induction xs with
+  | nil => intro _; exact ListEqv.nil
+  | cons x xs ih =>
+    intro hx
+    exact ListEqv.cons _ _ _ _ (valEqv_wrapNorm S w x (hx x (by simp))) (ih (fun y hy => hx y (by simp [hy])))
 
 /-- a step for the loader with fuel `n + 1` is a step for `fuel`, given that the bytes of the
     slot fit into `fuel` (an emitted slot then forces `fuel ≥ 1`) -/
@@ -224,6 +236,7 @@ theorem nested_fuel (S : Schema) : ∀ (fuel : Nat) (c : Nat) (d : MsgD) (sl : L
       | tss _ _ htf _ => have := htf.grp; rw [hg] at this; simp at this
       | durs _ _ htf _ => have := htf.grp; rw [hg] at this; simp at this
       | mapT _ _ _ _ hmf _ _ _ _ => have := hmf.grp; rw [hg] at this; simp at this
+      | wraps _ _ _ hwf _ => have := hwf.grp; rw [hg] at this; simp at this
     -- every slot is a step for the nested loader with the smaller fuel
     have hsteps : ∀ k f v, d.fields[k]? = some f → sl[k]? = some v →
         SlotStep S (loadInto S fuel) d (fun _ v v' => ValEqv S v v') k f (hidden f k cur) (selectedInGroup f k cur) v := by
@@ -418,6 +431,14 @@ theorem nested_fuel (S : Schema) : ∀ (fuel : Nat) (c : Nat) (d : MsgD) (sl : L
         apply slotStep_of_pos
         · intro n _
           exact slotStep_times S n d k f true _ xs hdist hf htf hxs hs _ (fun _ v => ValEqv.refl v)
+        · intro b hb; rw [hb0] at hb; injection hb with hb; subst hb; omega
+      | wraps _ w xs hwf hxs =>
+        have hh : hidden f k cur = false := by unfold hidden; rw [hwf.grp]
+        have hs : selectedInGroup f k cur = false := by unfold selectedInGroup; rw [hwf.grp]
+        rw [hh] at hb0 ⊢
+        apply slotStep_of_pos
+        · intro n _
+          exact slotStep_wraps S n d k f w _ xs hdist hf hwf hxs hs _ (ValEqv.list _ _ (listEqv_wrapNorm S w xs hxs))
         · intro b hb; rw [hb0] at hb; injection hb with hb; subst hb; omega
       | mapT _ isDur ks vs hmf hlenkv hks hvs hkd =>
         have hh : hidden f k cur = false := by unfold hidden; rw [hmf.grp]
